@@ -102,6 +102,10 @@ func (w *World) runDriver() (ok bool) {
 		w.driverOrders()
 	case "orders-weak":
 		w.driverOrdersWeak()
+	case "lagging2":
+		w.driverLagging(2)
+	case "lagging3":
+		w.driverLagging(3)
 	case "macro2":
 		w.driverMacro(2)
 	case "macro3":
@@ -392,6 +396,82 @@ func (w *World) driverMacro(rounds int) {
 			if w.Nodes[i].RS().Height == h {
 				w.fireIf(i, stepPrecommitWait, round)
 			}
+		}
+	}
+}
+
+// ---------------------------------------------------------------------------------------------
+// lagging: one correct node (x) receives NOTHING while the two other correct nodes and the Byzantine validator go
+// through K failed rounds (no proposal reaches anybody but its proposer; the Byzantine validator votes nil), and the
+// Byzantine validator falls silent at a chosen point of round K (never / before its precommit / before its prevote).
+// Then the network heals: the default schedule delivers the whole backlog to x (votes of round r before those of
+// round r+1, so x schedules a timeout in one round and is pulled into the next by the later round's +2/3 votes
+// before it fires) and must bring everybody to the commit - with the Byzantine validator silent, x's votes are needed.
+// Choices (all cost 0): K x silence point x whether x's own propose timeout of round 1 fired during the blackout.
+
+func (w *World) driverLagging(maxK int) {
+	if len(w.Cfg.Byz) != 1 || len(w.Correct) != 3 {
+		panic("lagging driver needs 3 correct + 1 byzantine")
+	}
+	b := w.Cfg.Byz[0]
+	const stepNewHeight, stepPropose, stepPrevoteWait, stepPrecommitWait = 1, 3, 5, 7
+	w.fireAll(stepNewHeight)
+	x := -1
+	for _, i := range w.Correct {
+		if w.Nodes[i].RS().Proposal == nil {
+			x = i
+			break
+		}
+	}
+	if x < 0 {
+		x = w.Correct[0]
+	}
+	var others []int
+	for _, i := range w.Correct {
+		if i != x {
+			others = append(others, i)
+		}
+	}
+	h := w.Nodes[x].RS().Height
+	costs := make([]int, maxK*3*2)
+	ch := w.X.Choose(costs, "lagging")
+	K, silent, xFires := ch%maxK+1, (ch/maxK)%3, (ch/(maxK*3))%2 == 1
+	w.Deviations = append(w.Deviations, fmt.Sprintf("lagging:rounds%d/silent%d/xfires%v", K, silent, xFires))
+	fromOthers := func(t kproto.SignedMsgType, round uint32) func(m *Msg) bool {
+		return func(m *Msg) bool {
+			return m.Kind == "vote" && m.Vote.Type == t && m.Vote.Round == round && m.Vote.ValidatorAddress != w.Addrs[x] && m.Vote.ValidatorAddress != w.Addrs[b]
+		}
+	}
+	byz := func(i int, t kproto.SignedMsgType, round uint32) {
+		if w.Nodes[i].Failed != nil || w.Nodes[i].RS().Height != h {
+			return
+		}
+		vi, _ := w.Nodes[i].RS().Validators.GetByAddress(w.Addrs[b])
+		w.Deliver(i, w.byzVote(b, uint32(vi), t, h, round, types.BlockID{}, "lagging"))
+	}
+	if xFires {
+		w.fireIf(x, stepPropose, 1)
+	}
+	for r := 1; r <= K; r++ {
+		round, last := uint32(r), r == K
+		for _, i := range others {
+			w.fireIf(i, stepPropose, round) // no proposal reaches anybody but its proposer
+		}
+		for _, i := range others {
+			w.deliverWhere(i, fromOthers(kproto.PrevoteType, round))
+			if !(last && silent == 2) {
+				byz(i, kproto.PrevoteType, round)
+			}
+			w.fireIf(i, stepPrevoteWait, round)
+		}
+		for _, i := range others {
+			w.deliverWhere(i, fromOthers(kproto.PrecommitType, round))
+			if !(last && silent >= 1) {
+				byz(i, kproto.PrecommitType, round)
+			}
+		}
+		for _, i := range others {
+			w.fireIf(i, stepPrecommitWait, round)
 		}
 	}
 }
